@@ -13,6 +13,7 @@
 #include "clstepcore/STEPaggrInt.h"
 #include "clstepcore/STEPaggrReal.h"
 #include "clstepcore/STEPaggrEnum.h"
+#include "clstepcore/STEPaggrBinary.h"
 #include "clstepcore/read_func.h"
 #include <stdio.h>
 #include <stdlib.h>
@@ -45,11 +46,22 @@ std::string WriteReal(SDAI_Real v) { g_wr_calls++; g_wr_arg = v; return std::str
 const char *SDAI_Enum::STEPwrite(std::string &s) const { s = ".X."; return s.c_str(); }
 const char *SDAI_Enum::asStr(std::string &s) const { s = "X"; return s.c_str(); }
 #include "enumnode_extract.inc"
+/* contract stubs of the binary value class (unit binary_cc) and of CheckRemainingInput (unit read_func_cc): record the arguments,
+ * leave a chosen severity in the caller's descriptor */
+static int g_bw_calls, g_br_calls, g_cri_calls; static const SDAI_Binary *g_bw_this; static std::string *g_bw_s; static istream *g_br_in; static ErrorDescriptor *g_br_err, *g_cri_err;
+static const char *g_cri_delims; static int g_br_sev, g_cri_sev;
+const char *SDAI_Binary::STEPwrite(std::string &s) const { g_bw_calls++; g_bw_this = this; g_bw_s = &s; s = "\"0AF\""; return s.c_str(); }
+const char *SDAI_Binary::c_str() const { return "0AF"; }
+Severity SDAI_Binary::STEPread(istream &in, ErrorDescriptor *err) { g_br_calls++; g_br_in = &in; g_br_err = err; err->GreaterSeverity((Severity)g_br_sev); return err->severity(); }
+Severity CheckRemainingInput(istream &, ErrorDescriptor *e, const char *, const char *d) { g_cri_calls++; g_cri_err = e; g_cri_delims = d; e->GreaterSeverity((Severity)g_cri_sev); return e->severity(); }
+namespace std { istringstream::istringstream(const char *) { _m_state = 0; _m_have = 0; _m_consumed = 0; } }   /* the text is irrelevant here: the value reader is a contract stub */
+#include "binnode_extract.inc"
 #undef sprintf
 #undef snprintf
 #undef private
 #undef protected
 #include "src/clstepcore/sdai.cc"   /* the real null sentinels (LONG_MAX, FLT_MIN) */
+#include "src/clutils/errordesc.cc"
 #include "verif.h"
 
 #define SN6 6
@@ -123,4 +135,36 @@ extern "C" void h_EnumNode_write()
     std::string s2; fill(s2, in_old, in_olen);
     const char *r2 = n->EnumNode::asStr(s2);
     __CPROVER_assert(!strcmp(r2, "X"), "asStr of an enumeration element is the bare item name");
+}
+
+/* C01: a BINARY element is written by its value's own writer into the caller's buffer; its asStr is the bare text.
+ * C03: what the value's reader (and, for the string form, the trailing-input check) reports reaches the caller's descriptor and
+ * is the returned severity */
+extern "C" void h_BinaryNode()
+{
+    IN_ARR(char, in_old, SN6); IN(unsigned, in_olen); IN(int, in_rsev); IN(int, in_csev);
+    __CPROVER_assume(in_olen <= SN6);
+    for (int i = 0; i < SN6; i++) if ((unsigned)i < in_olen) __CPROVER_assume(in_old[i] != 0);
+    __CPROVER_assume(in_rsev >= SEVERITY_MAX && in_rsev <= SEVERITY_NULL && in_csev >= SEVERITY_MAX && in_csev <= SEVERITY_NULL);
+    BinaryNode *n = (BinaryNode *)malloc(sizeof(BinaryNode));
+    std::string s; fill(s, in_old, in_olen);
+    g_bw_calls = 0;
+    const char *r = n->BinaryNode::STEPwrite(s, 0);
+    __CPROVER_assert(g_bw_calls == 1 && g_bw_this == &n->value && g_bw_s == &s && r == s.c_str() && !strcmp(r, "\"0AF\""), "C01 a BINARY element is written as its own value's exchange-file token, into the caller's buffer");
+    std::string s2; fill(s2, in_old, in_olen);
+    const char *r2 = n->BinaryNode::asStr(s2);
+    __CPROVER_assert(!strcmp(r2, "0AF") && r2 == s2.c_str(), "asStr of a BINARY element is exactly its own text");
+    /* readers */
+    ErrorDescriptor e;
+    istringstream in("x");
+    g_br_calls = 0; g_br_sev = in_rsev; g_cri_calls = 0; g_cri_sev = in_csev;
+    Severity sv = n->BinaryNode::STEPread(in, &e);
+    __CPROVER_assert(g_br_calls == 1 && g_br_in == &in && g_br_err == &e, "the BINARY element reader reads its own value from the caller's stream with the caller's descriptor");
+    __CPROVER_assert(sv == e._severity && (int)sv == in_rsev, "C03 what the value reader reported is what the element reader returns and leaves in the descriptor");
+    ErrorDescriptor e2;
+    g_br_calls = 0; g_cri_calls = 0;
+    Severity sv2 = n->BinaryNode::STEPread("\"0AF\"", &e2);
+    int worst = in_rsev < in_csev ? in_rsev : in_csev;
+    __CPROVER_assert(g_br_calls == 1 && g_br_err == &e2 && g_cri_calls == 1 && g_cri_err == &e2, "the string-form reader reads the value and then checks the rest of the input, both with the caller's descriptor");
+    __CPROVER_assert(sv2 == e2._severity && (int)sv2 == worst, "C03 the string-form reader returns the worse of what the value reader and the trailing-input check reported");
 }
